@@ -104,11 +104,7 @@ pub fn run_case(engine: &mut Engine, cap: &mut OutCapture, case: &Value) -> Valu
     if let Some(steps) = case.get("steps").and_then(|s| s.as_array()) {
         for st in steps {
             let r = run_step(engine, cap, st);
-            let panicked = r.get("s").and_then(|s| s.as_str()) == Some("panic");
             results.push(r);
-            if panicked {
-                break;
-            }
         }
     }
     json!({"id": case.get("id").cloned().unwrap_or(Value::Null), "steps": results})
